@@ -1,9 +1,12 @@
 """C02 — --color-only is a line-for-line, text-preserving filter (git add -p contract)."""
+import hashlib
+import os
+
 from .. import machine as M
-from ..core import parallel_map, b64
+from ..core import parallel_map, b64, hx, BUILD, LEAN, LineProc
 
 DRIVERS = ["drv_machine"]
-GENERATED = ["Handlers", "Markers"]
+GENERATED = ["Handlers", "Markers", "ColorOnlyCfg", "OptionsTables"]
 
 EXTRA = [[], ["--side-by-side"], ["--line-numbers"], ["--navigate"], ["--diff-so-fancy"], ["--diff-highlight"],
          ["--side-by-side", "--line-numbers"], ["--commit-decoration-style", "box"], ["--file-decoration-style", "ul"],
@@ -16,12 +19,27 @@ EXTRA = [[], ["--side-by-side"], ["--line-numbers"], ["--navigate"], ["--diff-so
          ["--file-style", "red underline overline"], ["--hunk-header-style", "syntax overline"], ["--commit-style", "raw box"],
          ["--hunk-header-style", "file line-number syntax box"], ["--tabs", "4"], ["--tabs", "0"], ["--hunk-label", "§"],
          ["--features", "decorations"], ["--features", "line-numbers side-by-side"], ["--dark"], ["--light"],
-         ["--word-diff-regex", "."], ["--wrap-max-lines", "0", "--side-by-side"], ["--max-line-length", "20"]]
+         ["--word-diff-regex", "."], ["--wrap-max-lines", "0", "--side-by-side"], ["--max-line-length", "20"],
+         # the other mode that passes lines through: raw has priority over color-only when the features are gathered, and
+         # raw alone is NOT line for line (binary sections, submodule bumps); asking for both must still be
+         ["--raw"], ["--raw"], ["--raw", "--side-by-side"], ["--raw", "--navigate"], ["--raw", "--diff-so-fancy"],
+         ["--raw", "--file-style", "yellow box"], ["--raw", "--commit-decoration-style", "box"], ["--features", "raw"]]
 # options that explicitly override one of the presets the mode implies: the text may then change, the line count may not
 OVERRIDES_TEXT = {"--line-numbers", "--commit-style", "--file-style", "--hunk-header-style", "--tabs", "--hyperlinks", "--relative-paths",
                   "--features", "--max-line-length", "--hunk-label"}
+# option sets delta refuses at start-up
+MUTEX = [{"--light", "--dark"}]
 
 GIT_COLOURS = {"-": "\x1b[31m", "+": "\x1b[32m", "@": "\x1b[36m", "d": "\x1b[1m", "i": "\x1b[1m"}
+
+
+def compatible(a, b):
+    """may the two option lists be given together? (clap rejects a repeated option, delta rejects --light with --dark)"""
+    na = {x for x in a if x.startswith("--")}
+    nb = {x for x in b if x.startswith("--")}
+    if na & nb:
+        return False
+    return not any(len(mx & (na | nb)) > 1 for mx in MUTEX)
 
 
 def colourise(lines):
@@ -32,13 +50,22 @@ def colourise(lines):
     return out
 
 
+# file sections whose lines the handlers treat specially outside color-only mode (swallowed, merged, re-written)
+STRUCTURAL_KINDS = ["binary", "binary_added", "binary_noindex", "submodule", "submodule_added", "submodule_deleted", "mode_only",
+                    "mode_changed", "renamed", "copied", "empty_added"]
+
+
 def gen_stream(rng):
     r = rng.random()
-    if r < 0.55:
+    if r < 0.18:
+        n = rng.randint(1, 4)
+        kinds = [rng.choice(STRUCTURAL_KINDS) if rng.random() < 0.75 else rng.choice(M.FILE_KINDS) for _ in range(n)]
+        lines, _ = M.gen_git_diff(rng, nfiles=n, kinds=kinds)
+    elif r < 0.6:
         lines, _ = M.gen_git_diff(rng)
-    elif r < 0.7:
+    elif r < 0.72:
         lines = M.gen_commit(rng) + [" a.rs | 2 +-", " 1 file changed, 1 insertion(+), 1 deletion(-)", ""] + M.gen_git_diff(rng, with_commit=False)[0]
-    elif r < 0.8:
+    elif r < 0.81:
         lines, _ = M.gen_combined_diff(rng)
     elif r < 0.9:
         lines, _ = M.gen_plain_diff(rng)
@@ -50,6 +77,19 @@ def gen_stream(rng):
     if rng.random() < 0.4:
         lines = colourise(lines)
     return lines
+
+
+def input_class(lines):
+    """which specially handled constructs the stream holds (part of a violation's signature)"""
+    plain = [M.strip_ansi(l.encode()).decode("utf-8", "replace") for l in lines]
+    c = []
+    if any(l.startswith("Binary files ") for l in plain):
+        c.append("binary-section")
+    if any(l.startswith(("-Subproject commit ", "+Subproject commit ")) for l in plain):
+        c.append("submodule-section")
+    if any(l.startswith(("old mode ", "new mode ")) for l in plain):
+        c.append("mode-lines")
+    return "+".join(c) or "text-sections"
 
 
 GIT_FIRST = ("commit ", "diff --git ", "diff --cc ", "diff --combined ")
@@ -70,16 +110,165 @@ def theorem_applies(lines):
     return "yes"
 
 
+# ------------------------------------------------------------------ companions of --color-only at the hook level
+
+# builtin feature flags given together with --color-only; `Props/C02.lean: color_only_config_normal_form` says the
+# configuration stays the one of color-only mode (config.color_only on, no decorations, side-by-side off) whatever else is
+# set, so the model is run with the same `Cfg` as without them
+HOOK_COMPANIONS = [["--raw"], ["--raw"], ["--raw"], ["--side-by-side"], ["--navigate"], ["--diff-highlight"], ["--diff-so-fancy"],
+                   ["--raw", "--side-by-side"], ["--raw", "--navigate"], ["--raw", "--diff-so-fancy"]]
+
+
+class CoCfg(M.VCfg):
+    """a color-only verification configuration with further feature flags on the command line, before or after"""
+
+    def __init__(self, base, extra, front):
+        self.d = dict(base.d)
+        self.extra = list(extra)
+        self.front = front
+        if "--raw" in extra:
+            self.d["mergeConflicts"] = 0        # `handle_merge_conflicts: !opt.raw`
+
+    def key(self):
+        return M.VCfg.key(self) + (tuple(self.extra), self.front)
+
+    def args(self):
+        a = M.VCfg.args(self)
+        return self.extra + a if self.front else a + self.extra
+
+
+# ------------------------------------------------------------------ where the request and its companions come from
+
+PLAIN_FLAGS = ["raw", "raw", "raw", "navigate", "diff-highlight", "diff-so-fancy"]
+GUTTER_FLAGS = ["side-by-side", "line-numbers", "hyperlinks"]       # ask for a gutter / links: text may change, line count not
+FLAG_SOURCES = ["cli", "main", "feature-section", "features-list", "param"]
+CO_SOURCES = ["cli", "cli", "cli", "main", "feature-section", "param"]
+CARRIERS = ["main", "cli", "env", "env+"]     # where the one features list of a run is given
+
+
+def gen_sources(rng):
+    """--color-only asked for through one of its sources and 1-2 other builtin feature flags through theirs.
+    Returns dict(args, gitconfig, env, tags, text_ok)."""
+    co_src = rng.choice(CO_SOURCES)
+    comps = [rng.choice(PLAIN_FLAGS)]
+    if rng.random() < 0.35:
+        c2 = rng.choice(PLAIN_FLAGS + GUTTER_FLAGS)
+        if c2 not in comps:
+            comps.append(c2)
+    main, section, words, params, args = [], [], [], [], []
+    tags = ["color-only@" + co_src]
+    mdl = dict(cli=[], cliFeatures=None, envFeatures=None, main=[], sections=[], params=[])   # the same, for the Lean model
+
+    def place(name, src):
+        if src == "cli":
+            args.append("--" + name); mdl["cli"].append((name, "true"))
+        elif src == "main":
+            main.append(f"{name} = true"); mdl["main"].append((name, "true"))
+        elif src == "feature-section":
+            section.append(f"{name} = true"); mdl["sections"].append(("cf", name, "true"))
+        elif src == "features-list":
+            words.append(name)
+        elif src == "param":
+            params.append(f"'delta.{name}=true'"); mdl["params"].append((name, "true"))
+    place("color-only", co_src)
+    text_ok = True
+    for c in comps:
+        src = rng.choice(FLAG_SOURCES)
+        place(c, src)
+        tags.append(f"{c}@{src}")
+        # an emulation preset that outranks the color-only feature (anything but both given as command-line flags, where
+        # color-only is gathered later and wins) brings its own header styles: explicit overrides of the presets
+        if c in GUTTER_FLAGS or (c in ("diff-highlight", "diff-so-fancy") and not (src == "cli" and co_src == "cli")):
+            text_ok = False
+    rng.shuffle(args)
+    if section:
+        words.append("cf")
+    rng.shuffle(words)
+    env = {}
+    if words:
+        carrier = rng.choice(CARRIERS)
+        tags.append("features@" + carrier)
+        if carrier == "main":
+            main.append("features = " + " ".join(words)); mdl["main"].append(("features", " ".join(words)))
+        elif carrier == "cli":
+            args[rng.randint(0, len(args)):0] = ["--features", " ".join(words)]; mdl["cliFeatures"] = " ".join(words)
+        else:
+            env["DELTA_FEATURES"] = ("+" if carrier == "env+" else "") + " ".join(words)
+            mdl["envFeatures"] = env["DELTA_FEATURES"]
+    if params:
+        env["GIT_CONFIG_PARAMETERS"] = " ".join(params)
+    text = "[core]\n    abbrev = 12\n"
+    if main:
+        text += "[delta]\n" + "".join(f"    {l}\n" for l in main)
+    if section:
+        text += '[delta "cf"]\n' + "".join(f"    {l}\n" for l in section)
+    return dict(args=args, gitconfig=text, env=env, tags=tags, text_ok=text_ok, model=mdl)
+
+
+# `sorted_feature_names`: the flag loops of gather_features enumerate the builtin features in sorted order
+PI = ["color-only", "diff-highlight", "diff-so-fancy", "hyperlinks", "line-numbers", "navigate", "raw", "side-by-side"]
+
+
+def cocfg_request(m):
+    """request to lean/Driver/ColorOnlyCfg.lean (`ColorOnlyCfg.cfgOfInputs` on the sources of one run)"""
+    opt = lambda s: "-" if s is None else hx(s)
+    cli = "\n".join(f"{k}\t{v}" for k, v in m["cli"])
+    gf = "\n".join([f"m\t{k}\t{v}" for k, v in m["main"]] + [f"s\t{f}\t{k}\t{v}" for f, k, v in m["sections"]])
+    params = "\n".join(f"{k}\t{v}" for k, v in m["params"])
+    return " ".join(["cocfg.resolve", hx(" ".join(PI)), hx(cli), opt(m["cliFeatures"]), opt(m["envFeatures"]), "0", "0",
+                     hx(gf), "-", hx(params), "0"])
+
+
+def home_for(text):
+    """a scratch HOME whose ~/.gitconfig is `text` (named by its content: replays find it again)"""
+    h = os.path.join(BUILD, "c02-home-s" + hashlib.sha256(text.encode()).hexdigest()[:12])
+    os.makedirs(h, exist_ok=True)
+    p = os.path.join(h, ".gitconfig")
+    if not os.path.exists(p) or open(p).read() != text:
+        with open(p, "w") as f:
+            f.write(text)
+    return h
+
+
+def run_case(ctx, case, data, more_args=()):
+    """run the real binary on a stored case (args, optional @gitconfig marker / gitconfig text / env)"""
+    args = list(case["args"])
+    env = dict(case.get("env") or {})
+    if args and args[0].startswith("@gitconfig:"):
+        env["HOME"] = os.path.join(BUILD, "c02-home-" + args[0].split(":")[1])
+        args = args[1:]
+    if case.get("gitconfig") is not None:
+        env["HOME"] = home_for(case["gitconfig"])
+    return ctx.run_delta(args + list(more_args), data, env=env or None)
+
+
+def show_config(out):
+    cfg = {}
+    for l in M.strip_ansi(out).decode("utf-8", "replace").split("\n"):
+        if " = " in l:
+            k, v = l.split(" = ", 1)
+            cfg[k.strip()] = v.strip()
+    return cfg
+
+
+DECO_WORDS = {"box", "ul", "ol", "underline", "overline"}
+
+
 def run(ctx, rep):
     rep.rule = ("streams git can hand to a pager / interactive.diffFilter (plain or git-coloured diffs, commit metadata + diffstat, all file "
-                "events, combined diffs, plain diff -u, lightly mutated ones) x --color-only crossed with side-by-side, line numbers, "
-                "navigate, decorations, omit/raw styles, emulation presets: one output line per input line; visible text equal unless a preset "
-                "is overridden; non-trivial = stream has >= 1 hunk and >= 2 line kinds; distinct by (args, input)")
+                "events incl. binary sections and submodule bumps, combined diffs, plain diff -u, lightly mutated ones) x --color-only crossed "
+                "with side-by-side, line numbers, navigate, raw, decorations, omit/raw styles, emulation presets, given on the command line "
+                "(before / after), in [delta], in a custom feature, a features list (gitconfig, --features, DELTA_FEATURES) or "
+                "GIT_CONFIG_PARAMETERS: one output line per input line; visible text equal unless a preset is overridden; the Config "
+                "reported by --show-config is in the normal form; non-trivial = stream has >= 1 hunk and >= 2 line kinds; distinct by "
+                "(args, sources, input)")
     rng = ctx.rng
     # (1) model correspondence in color-only mode
     cases, meta = [], []
     for _ in range(ctx.n(200, 4000)):
         cfg = M.gen_cfg(rng, color_only=True)
+        if rng.random() < 0.5:
+            cfg = CoCfg(cfg, rng.choice(HOOK_COMPANIONS), rng.random() < 0.5)
         lines = gen_stream(rng)
         if any("\x1b" in l for l in lines):
             lines = [M.strip_ansi(l.encode()).decode() for l in lines]   # the machine model covers uncoloured hunk lines
@@ -87,8 +276,11 @@ def run(ctx, rep):
     res = M.observe(ctx, cases)
     for (cfg, lines), (impl, model) in zip(meta, res):
         case = dict(args=cfg.args(), model_cfg=cfg.d, input="\n".join(lines))
+        extra = getattr(cfg, "extra", [])
+        comp = (":" + "+".join(x.lstrip("-") for x in extra)) if extra else ""
         rep.case(key=("hook", cfg.key(), tuple(lines)), nontrivial=len({l[:1] for l in lines}) >= 3,
-                 sample=dict(level="hook", head=lines[:4], n=len(lines)))
+                 sample=dict(level="hook", head=lines[:4], n=len(lines), companions=extra))
+        rep.count("hook-companions:" + (comp[1:] or "none"))
         if impl.panic:
             rep.violation("panic:" + impl.msg[:60], impl.msg[:200], case); continue
         if not impl.ok:
@@ -100,7 +292,8 @@ def run(ctx, rep):
         if nout != len(lines):
             ambiguous = not any(l.startswith("diff --git") or l.startswith("diff --cc") for l in lines) and \
                 any(l.startswith("+++ ") and not l.startswith("+++ y/") for l in lines)
-            rep.violation("plain-diff-plusplus-body-taken-as-header" if ambiguous else "line-count:hook",
+            rep.violation("plain-diff-plusplus-body-taken-as-header" if ambiguous else
+                          "line-count:hook" + (comp + ":" + input_class(lines) if comp else ""),
                           f"{nout} output lines for {len(lines)} input lines", case)
     # (2) the real binary, option matrix
     jobs = []
@@ -109,15 +302,16 @@ def run(ctx, rep):
         extra = list(rng.choice(EXTRA))
         if rng.random() < 0.25:
             e2 = list(rng.choice(EXTRA))
-            if not ({x for x in e2 if x.startswith("--")} & {x for x in extra if x.startswith("--")}):
+            if compatible(extra, e2):
                 extra += e2
-        jobs.append((["--no-gitconfig", "--color-only"] + extra, lines))
+        # the request first (as git's interactive.diffFilter setting usually has it) or last
+        args = ["--no-gitconfig", "--color-only"] + extra if rng.random() < 0.7 else ["--no-gitconfig"] + extra + ["--color-only"]
+        jobs.append(dict(args=args, lines=lines, tag="+".join(x for x in extra if x.startswith("--")) or "plain",
+                         text_ok=not (set(extra) & OVERRIDES_TEXT)))
 
     # color-only switched on through gitconfig (main section / a custom feature) instead of the command line, together with
     # decorations or side-by-side asked for in gitconfig or on the command line: the marker "@gitconfig:<k>" as first
     # argument selects a scratch HOME whose ~/.gitconfig is GITCONFIGS[k]
-    import os as _os
-    from ..core import BUILD as _BUILD
     GITCONFIGS = [
         "[delta]\n    color-only = true\n",
         "[delta]\n    color-only = true\n    commit-decoration-style = bold yellow box ul\n    file-decoration-style = blue ul\n"
@@ -126,31 +320,58 @@ def run(ctx, rep):
         "[delta]\n    features = co\n[delta \"co\"]\n    color-only = true\n    file-decoration-style = yellow box\n",
         "[delta]\n    color-only = true\n    features = decorations\n",
     ]
-    homes = []
     for k, text in enumerate(GITCONFIGS):
-        h = _os.path.join(_BUILD, f"c02-home-{k}")
-        _os.makedirs(h, exist_ok=True)
-        with open(_os.path.join(h, ".gitconfig"), "w") as f:
+        h = os.path.join(BUILD, f"c02-home-{k}")
+        os.makedirs(h, exist_ok=True)
+        with open(os.path.join(h, ".gitconfig"), "w") as f:
             f.write(text)
-        homes.append(h)
     for _ in range(ctx.n(40, 1200)):
         k = rng.randrange(len(GITCONFIGS))
         extra = rng.choice([[], ["--side-by-side"], ["--file-decoration-style", "red box"], ["--commit-decoration-style", "ul"],
-                            ["--hunk-header-decoration-style", "box ul"], ["--line-numbers"]])
-        jobs.append(([f"@gitconfig:{k}"] + extra, gen_stream(rng)))
+                            ["--hunk-header-decoration-style", "box ul"], ["--line-numbers"], ["--raw"]])
+        # color-only from gitconfig does not remove the side-by-side *feature* (only its panels): the line-number gutter that
+        # feature implies stays, i.e. asking for side-by-side there is asking for a gutter (the line count must still hold)
+        gutter = k == 2 or "--side-by-side" in extra
+        jobs.append(dict(args=[f"@gitconfig:{k}"] + extra, lines=gen_stream(rng), tag=(extra[0] if extra else "none"),
+                         text_ok=not (set(extra) & OVERRIDES_TEXT) and not gutter))
+
+    # the request and other builtin feature flags (raw above all), each through one of its sources
+    for _ in range(ctx.n(140, 4000)):
+        s = gen_sources(rng)
+        lines = gen_stream(rng)
+        if rng.random() < 0.5 and input_class(lines) == "text-sections":
+            lines = gen_stream(rng)          # lean towards streams with specially handled sections
+        jobs.append(dict(args=s["args"], gitconfig=s["gitconfig"], env=s["env"], lines=lines, tags=s["tags"], model=s["model"],
+                         tag="sources:" + "+".join(t for t in s["tags"] if not t.startswith("color-only@cli")), text_ok=s["text_ok"]))
+
+    def case_of(j):
+        c = dict(args=j["args"], input_b64=b64(("\n".join(j["lines"]) + "\n").encode()))
+        if "gitconfig" in j:
+            c.update(gitconfig=j["gitconfig"], env=j["env"], sources=j["tags"])
+        return c
 
     def one(j):
-        args, lines = j
-        if args and args[0].startswith("@gitconfig:"):
-            return ctx.run_delta(args[1:], ("\n".join(lines) + "\n").encode(), env={"HOME": homes[int(args[0].split(":")[1])]})
-        return ctx.run_delta(args, ("\n".join(lines) + "\n").encode())
-    for (args, lines), (rc, out, err) in zip(jobs, parallel_map(one, jobs)):
-        data = ("\n".join(lines) + "\n").encode()
-        case = dict(args=args, input_b64=b64(data))
-        rep.case(key=("bin", tuple(args), tuple(lines)), nontrivial=len({l[:1] for l in lines}) >= 3,
-                 sample=dict(level="binary", args=args, head=lines[:3]))
-        rep.count("opt:" + (args[2] if len(args) > 2 else "none"))
+        return run_case(ctx, case_of(j), ("\n".join(j["lines"]) + "\n").encode())
+    refusals = {}
+    for j, (rc, out, err) in zip(jobs, parallel_map(one, jobs)):
+        lines, args = j["lines"], j["args"]
+        case = case_of(j)
+        rep.case(key=("bin", tuple(args), j.get("gitconfig"), tuple(sorted((j.get("env") or {}).items())), tuple(lines)),
+                 nontrivial=len({l[:1] for l in lines}) >= 3,
+                 sample=dict(level="binary", args=args, sources=j.get("tags"), head=lines[:3]))
+        rep.count("opt:" + j["tag"])
+        rep.count("input:" + input_class(lines))
         if rc != 0:
+            # a configuration delta refuses at start-up (clap / option validation: same status and no output whatever the
+            # input, e.g. on an empty one) is not a configuration `--color-only` runs under; a non-zero status that depends
+            # on the input is a failure of the filter
+            key = (tuple(args), j.get("gitconfig"), tuple(sorted((j.get("env") or {}).items())))
+            if key not in refusals:
+                rc0, out0, _ = run_case(ctx, case, b"")
+                refusals[key] = (rc0 == rc and out0 == b"")
+            if refusals[key] and out == b"":
+                rep.count("configuration-not-accepted:" + err.decode("utf-8", "replace").strip().split("\n")[0][:60])
+                continue
             rep.violation(f"exit:{rc}", f"delta {' '.join(args)} exited {rc}: {err[-200:]!r}", case); continue
         plain = [M.strip_ansi(l.encode()).decode("utf-8", "replace") for l in lines]
         # plain `diff -u` streams: an added line `++ x` (input `+++ x`) inside a hunk is taken for a file header
@@ -160,35 +381,92 @@ def run(ctx, rep):
         olines = out.split(b"\n")
         if olines and olines[-1] == b"":
             olines.pop()
+        cls = (":" + input_class(lines)) if (j["tag"].startswith("sources:") or "raw" in j["tag"]) else ""
         if len(olines) != len(lines):
-            rep.violation("plain-diff-plusplus-body-taken-as-header" if ambiguous else "line-count:" + (args[2] if len(args) > 2 else "plain"),
+            rep.violation("plain-diff-plusplus-body-taken-as-header" if ambiguous else "line-count:" + j["tag"] + cls,
                           f"{len(olines)} output lines for {len(lines)} input lines", case)
             continue
-        # color-only from gitconfig does not remove the side-by-side *feature* (only its panels): the line-number gutter that
-        # feature implies stays, i.e. asking for side-by-side there is asking for a gutter (the line count must still hold)
-        gutter = args[0].startswith("@gitconfig:") and (args[0].endswith(":2") or "--side-by-side" in args)
-        if not (set(args) & OVERRIDES_TEXT) and not gutter:
+        if j["text_ok"]:
             for k, (o, l) in enumerate(zip(olines, lines)):
                 want = M.strip_ansi(l.encode()).rstrip(b"\r")
                 got = M.strip_ansi(o)
                 if got != want:
-                    rep.violation("plain-diff-plusplus-body-taken-as-header" if ambiguous else "text-changed:" + (args[2] if len(args) > 2 else "plain"),
+                    rep.violation("plain-diff-plusplus-body-taken-as-header" if ambiguous else "text-changed:" + j["tag"] + cls,
                                   f"line {k}: shows {got[:80]!r} for input {want[:80]!r}", dict(case, line=k))
                     break
+
+    # (3) the configuration itself (`--show-config` reports fields of the Config the handlers read): what
+    # `color_only_any_source_normal_form` / `color_only_config_presets` (Props/C02.lean) say about every request
+    sjobs = [j for j in jobs if "gitconfig" in j][:ctx.n(40, 600)]
+
+    def show(j):
+        return run_case(ctx, case_of(j), b"", more_args=["--show-config"])
+    # the Lean model of the same step (`ColorOnlyCfg.cfgOfInputs`: C13's resolution, the tail of set_options, Config::from
+    # with the generated field initialisers) on the same sources; no lean_exe is registered for it: interpreted
+    mresp = []
+    if ctx.lean_ok and sjobs:
+        drv = LineProc(["lake", "env", "lean", "--run", "Driver/ColorOnlyCfg.lean"], cwd=LEAN)
+        try:
+            mresp = drv.ask([cocfg_request(j["model"]) for j in sjobs], timeout=ctx.n(240, 1500))
+        except Exception as ex:      # noqa: the correspondence is then reported as not run
+            rep.notes["cocfg-driver"] = repr(ex)[:200]
+    if len(mresp) != len(sjobs) or not all(r.startswith("ok ") for r in mresp):
+        rep.notes["cocfg-driver"] = rep.notes.get("cocfg-driver") or ("unusable answers: " + repr(mresp[:1])[:200])
+        mresp = [None] * len(sjobs)
+    FIELDS = {"side_by_side": "side-by-side", "line_numbers": "line-numbers", "keep_plus_minus_markers": "keep-plus-minus-markers",
+              "navigate": "navigate", "hyperlinks": "hyperlinks"}
+    for j, (rc, out, err), mr in zip(sjobs, parallel_map(show, sjobs), mresp):
+        if rc != 0:
+            continue
+        cfg = show_config(out)
+        case = dict(case_of(j), show_config=True)
+        if mr is not None:
+            mv = dict(f.split("=", 1) for f in mr.split(" ")[1:])
+            dis = []
+            if mv.get("requested") != "1":
+                dis.append("the model does not see the request: requested=" + str(mv.get("requested")))
+            for mf, sf in FIELDS.items():
+                if {"1": "true", "0": "false"}.get(mv.get(mf)) != cfg.get(sf):
+                    dis.append(f"{sf}: implementation {cfg.get(sf)} vs model {mv.get(mf)}")
+            if mv.get("tab") != cfg.get("tabs"):
+                dis.append(f"tabs: implementation {cfg.get('tabs')} vs model {mv.get('tab')}")
+            for mf, sf in (("commit_style", "commit-style"), ("file_style", "file-style"), ("hunk_header_style", "hunk-header-style")):
+                if (mv.get(mf) == hx("raw")) != (cfg.get(sf) == "raw"):
+                    dis.append(f"{sf}: implementation {cfg.get(sf)!r} vs model style string {mv.get(mf)}")
+            rep.corr_case("cocfg.resolve", not dis, dict(case, model=mr, disagreement=dis[:3]))
+        src = "+".join(t for t in j["tags"] if not t.startswith("color-only@cli"))
+        rep.case(key=("show-config", tuple(j["args"]), j["gitconfig"], tuple(sorted(j["env"].items()))), nontrivial=True,
+                 sample=dict(level="show-config", sources=j["tags"], side_by_side=cfg.get("side-by-side"), tabs=cfg.get("tabs")))
+        if cfg.get("side-by-side") != "false":
+            rep.violation("config:side-by-side-on:" + src, f"--show-config reports side-by-side = {cfg.get('side-by-side')}", case)
+        for k in ("commit-style", "file-style", "hunk-header-style"):
+            if set(cfg.get(k, "").split()) & DECO_WORDS:
+                rep.violation(f"config:decoration:{k}:" + src, f"--show-config reports {k} = {cfg.get(k)}", case)
+        if j["text_ok"]:
+            want = {"commit-style": "raw", "file-style": "raw", "hunk-header-style": "raw", "keep-plus-minus-markers": "true", "tabs": "0"}
+            for k, v in want.items():
+                if cfg.get(k) != v:
+                    rep.violation(f"config:preset-missing:{k}:" + src, f"--show-config reports {k} = {cfg.get(k)!r}, the preset is {v!r}", case)
 
 
 def replay(ctx, rep, obj):
     import base64
     c = obj["case"]
+    if c.get("show_config"):
+        rc, out, err = run_case(ctx, c, b"", more_args=["--show-config"])
+        cfg = show_config(out)
+        print("rc", rc, {k: cfg.get(k) for k in ("side-by-side", "commit-style", "file-style", "hunk-header-style", "keep-plus-minus-markers", "tabs")})
+        if cfg.get("side-by-side") != "false" or any(set(cfg.get(k, "").split()) & DECO_WORDS for k in ("commit-style", "file-style", "hunk-header-style")):
+            rep.violation(obj.get("signature", "config"), "replayed", c)
+        return
     if "input_b64" in c:
         data = base64.b64decode(c["input_b64"])
-        if c["args"] and c["args"][0].startswith("@gitconfig:"):
-            import os
-            from ..core import BUILD
-            rc, out, err = ctx.run_delta(c["args"][1:], data, env={"HOME": os.path.join(BUILD, "c02-home-" + c["args"][0].split(":")[1])})
-        else:
-            rc, out, err = ctx.run_delta(c["args"], data)
-        n_in, n_out = data.count(b"\n"), out.count(b"\n")
-        print("rc", rc, "lines in/out", n_in, n_out)
-        if n_in != n_out:
-            rep.violation(obj.get("signature", "line-count"), "replayed", c)
+    elif "input" in c:
+        data = (c["input"] + "\n").encode()       # a hook-level case: the same arguments to the real binary
+    else:
+        return
+    rc, out, err = run_case(ctx, c, data)
+    n_in, n_out = data.count(b"\n"), out.count(b"\n")
+    print("rc", rc, "lines in/out", n_in, n_out)
+    if n_in != n_out:
+        rep.violation(obj.get("signature", "line-count"), "replayed", c)
